@@ -63,8 +63,13 @@ PROVED = {
  "C04": ("Theorem C04_refines: for every configuration, input, initial capacity (0 included), every read script in which the source never returns "
          "Ok(0) before the end and never fails, and every next()/try_recover() sequence, the buffered machine (window, capacity, compaction-free "
          "refill loop) yields exactly the run of the abstract reader Pure.v on the input; hence identical items/offsets/errors for any two chunkings "
-         "and capacities. EOF pauses at tag boundaries and the EOF-closing switch are covered by correspondence only (exhaustive partitions x "
-         "capacities of small inputs, pause scripts); pauses inside a buffered master are known finding D18.", ""),
+         "and capacities. EOF pauses (Proofs/Pauses.v, PausesLookahead.v), with end-of-stream closing disabled: C04_pause_boundary_noop — a temporary "
+         "Ok(0) met at a tag boundary is a no-op that yields None and leaves the abstract state unchanged; C04_pause_run_many — for a run whose pauses "
+         "are all met at tag boundaries, repeated drains yield exactly the slice run's results with one None inserted per pause (any capacity, any "
+         "chunks between the pauses, any buffered set); C04_step_nopause_refines — every call that consumes no pause refines the abstract reader; "
+         "C04_pause_run_lookahead / C04_pause_swallowed — pauses swallowed by the 16-byte header look-ahead while the current tag is complete in the "
+         "window change nothing. The hypotheses on the paused run are semantic (where each pause is met); the correspondence run covers exhaustive "
+         "partitions x capacities of small inputs and pause scripts computed from the document layout; pauses inside a buffered master are known finding D18.", ""),
  "C17": ("Theorem C17_buffer_bounded: with a size limit m the model's buffer length never exceeds max(initial capacity, 16, m), for every input, "
          "configuration, source script (pauses and I/O errors included) and call sequence; a header declaring a larger known size is never accepted "
          "and header validation requests at most 16 bytes of buffer. Real heap usage (old+new buffer during growth, payload copies, queue) is an "
@@ -105,8 +110,10 @@ PROVED = {
          "global placeholders. C01_full_roundtrip_partial: the same with masters given as Full items. C01_reader_roundtrip_known_partial (Proofs/RoundTripKnown.v): "
          "complementary class — every master of known size, declared paths with global placeholders ALLOWED (global elements at any depth, recursive "
          "masters): the reader yields exactly the document's items, provided the first placeholder-free element is a top-level one (needed only for "
-         "specifications that are not derive-consistent: a child whose path omits its global parent's placeholder; counterexample exhibited). Raw tags, "
-         "global elements below unknown-size masters (inherently ambiguous) and destination write scripts (C09_script_irrelevant) are covered by the "
+         "specifications that are not derive-consistent: a child whose path omits its global parent's placeholder; counterexample exhibited). "
+         "C01_reader_roundtrip_raw_partial / C01_roundtrip_raw_partial (Proofs/RoundTripRaw.v): raw tags with well-formed ids round-trip when unknown "
+         "ids are allowed — reader half for known-size documents with raw leaves anywhere, writer half (write_raw and write(RawTag)) and the full round "
+         "trip. Global elements below unknown-size masters (inherently ambiguous) are covered by the "
          "correspondence run (write-then-read of random conformant documents incl. boundary payload lengths, widths, Full, unknown sizes, raw tags).", ""),
  "C02": ("PARTIAL. Theorem C02_fixpoint_partial: for every strict configuration and every conforming document in ANY encoding (zero-padded or empty "
          "integers, 4-byte floats, any size width incl. 8-byte fields, any subset of unknown-size masters closed by a following element or EOF), the "
